@@ -250,6 +250,41 @@ def run(prog: Program, col: Collector, tier: str, refs: Optional[Refs] = None, c
                           "-inf, -inf + x = -inf) the scattered adjoint is lost", f.loc(c))
     if n == 0:
         raise AnalysisError("no Scatter rule with a destination fill found (anchor: eager_scatter_tensor)")
+    # returning the source unchanged is the transpose of a RENAMING; that is the whole scatter only when the renaming is injective
+    # (two keys sent to one variable scatter onto a diagonal: off-diagonal positions hold the unit of the op)
+    m = 0
+    for r in cat.registrations:
+        f = r.target
+        if f is None or not r.pattern or isinstance(f.node, ast.Lambda) or refs.resolve(r.pattern[0]) != "funsor.terms.Scatter" or not r.registry.startswith("funsor.interpretations."):
+            continue
+        tc = cat.term_classes.get("funsor.terms.Scatter")
+        if tc is None or len(f.positional) != len(tc.fields) or "source" not in tc.fields or "subs" not in tc.fields:
+            continue
+        srcn, subsn = f.positional[tc.fields.index("source")], f.positional[tc.fields.index("subs")]
+        for ret in walk_no_nested(f.node):
+            if not (isinstance(ret, ast.Return) and isinstance(ret.value, ast.Name) and ret.value.id == srcn):
+                continue
+            m += 1
+            guards = [a for a in f.module.ancestors(ret) if isinstance(a, ast.If) and f.module.enclosing_function(a) is f.node]
+
+            def distinct_test(t) -> bool:
+                for c in ast.walk(t):
+                    if isinstance(c, ast.Compare) and len(c.ops) == 1 and isinstance(c.ops[0], ast.Eq):
+                        sides = [c.left, c.comparators[0]]
+                        lens = [x for x in sides if isinstance(x, ast.Call) and isinstance(x.func, ast.Name) and x.func.id == "len" and len(x.args) == 1]
+                        if len(lens) == 2:
+                            a0, a1 = lens[0].args[0], lens[1].args[0]
+                            for u, w in ((a0, a1), (a1, a0)):
+                                is_set = isinstance(u, ast.SetComp) or (isinstance(u, ast.Call) and isinstance(u.func, ast.Name) and u.func.id in ("set", "frozenset"))
+                                if is_set and any(isinstance(y, ast.Name) and y.id == subsn for y in ast.walk(u)) and norm(w) == subsn:
+                                    return True
+                return False
+
+            col.check(any(distinct_test(g.test) for g in guards), f"{f.fq}::return {srcn}",
+                      "the source is returned unchanged only when the substituted variables are pairwise distinct (an injective renaming)",
+                      f"`return {srcn}` is not guarded by a test that the values of `{subsn}` are pairwise distinct: scattering along a diagonal (two keys onto one "
+                      "variable) must leave the unit of the op off the diagonal", f.loc(ret))
+    col.cur.analysed["scatter_returns_source"] = m
     return col
 
 
